@@ -267,3 +267,7 @@ mut("pred-has-added-by-clock", "C11", T, "    pub(crate) fn has_added(&self, id:
 mut("lookup-search-end-exclusive", "C04", BS, "                    if clock <= end {\n                        return Some(mid);", "                    if clock < end {\n                        return Some(mid);", "lookup")
 mut("lookup-clean-end-off-by-one", "C04", BS, "        let offset = id.clock - block_id.clock;\n        Some(ItemSlice::new(ptr, 0, offset))", "        let offset = id.clock - block_id.clock;\n        Some(ItemSlice::new(ptr, 0, offset + 1))", "lookup", also=["C01", "C12"])
 mut("lookup-benign-clean-start-named", "C04", BS, "        let offset = id.clock - ptr.id().clock;\n        Some(ItemSlice::new(ptr, offset, ptr.len() - 1))", "        let start = id.clock - ptr.id().clock;\n        let last = ptr.len() - 1;\n        Some(ItemSlice::new(ptr, start, last))", "", kind="benign", also=["C01", "C12"])
+mut("c11f-updated-without-deleted-prev", "C11", "yrs/src/types/mod.rs", "                        if let Some(prev) = prev.as_deref() {\n                            if txn.has_deleted(&prev.id) {\n                                let old_value = prev.content.get_last().unwrap_or_default();\n                                keys.insert(\n                                    key.clone(),\n                                    EntryChange::Updated(old_value, new_value),",
+    "                        if let Some(prev) = prev.as_deref() {\n                            if !prev.is_deleted() || txn.has_deleted(&prev.id) {\n                                let old_value = prev.content.get_last().unwrap_or_default();\n                                keys.insert(\n                                    key.clone(),\n                                    EntryChange::Updated(old_value, new_value),", "C11.f")
+mut("c11g-removed-also-for-added", "C11", "yrs/src/types/mod.rs", "                if txn.has_deleted(&item.id) && !txn.has_added(&item.id) {", "                if txn.has_deleted(&item.id) {", "C11.g")
+mut("c11g-benign-named-flags", "C11", "yrs/src/types/mod.rs", "                if txn.has_deleted(&item.id) && !txn.has_added(&item.id) {", "                let gone = txn.has_deleted(&item.id);\n                let fresh = txn.has_added(&item.id);\n                if gone && !fresh {", "", kind="benign")
